@@ -664,7 +664,7 @@ def monitors(ctx, widen=False):
             except Exception:  # noqa: BLE001
                 import traceback
                 ctx.broken("harness", "C04 corpus monitor " + name, traceback.format_exc()[-600:])
-    n = 40 if ctx.quick else 400
+    n = 28 if ctx.quick else 400
     if widen:
         n *= 3
     for i in range(n):
